@@ -52,9 +52,27 @@ pub mod trace {
         static TRACE: RefCell<Option<Vec<IterRecord>>> = const { RefCell::new(None) };
     }
 
+    thread_local! {
+        static CHECKS: RefCell<Option<Vec<(u32, f64)>>> = const { RefCell::new(None) };
+    }
+
     /// begin recording on this thread (clears any previous trace)
     pub fn start() {
         TRACE.with(|t| *t.borrow_mut() = Some(Vec::new()));
+        CHECKS.with(|t| *t.borrow_mut() = Some(Vec::new()));
+    }
+
+    /// (iteration, elapsed time compared against time_limit) at every termination check
+    pub fn take_checks() -> Vec<(u32, f64)> {
+        CHECKS.with(|t| t.borrow_mut().take().unwrap_or_default())
+    }
+
+    pub(crate) fn record_check(iter: u32, solve_time: f64) {
+        CHECKS.with(|t| {
+            if let Some(v) = t.borrow_mut().as_mut() {
+                v.push((iter, solve_time));
+            }
+        });
     }
 
     /// stop recording and return what was recorded
